@@ -187,17 +187,26 @@ def check_session(case, ctx):
     if stepped:
         fork = ip.copy()
         order = [('fork', fork), ('original', ip)] if case['fork_first'] else [('original', ip), ('fork', fork)]
+        j = case.get('j', 0); stepper = case.get('stepper', 'fork')
         for who, x in order:
             try:
+                if j and stepper in (who, 'both'):
+                    # the parser advances through its *own* lexer thread before it is resumed
+                    if case.get('exhaust'):
+                        x.exhaust_lexer()
+                    else:
+                        for _ in range(j):
+                            try: x.feed_token(next(x.lexer_thread.lex(x.parser_state)))
+                            except StopIteration: break
                 got = ('ok', norm(x.resume_parse()))
             except UnexpectedInput as e:
                 got = ('err', type(e).__name__)
             if got != want:
                 raise Violation('resume_parse() on the %s differs from parse() of the text (resumed %s)' % (who, 'first' if x is order[0][1] else 'second'),
-                                grammar=g, text=text, stepped_tokens=k, got=str(got)[:300], want=str(want)[:300], fork_resume=True)
+                                grammar=g, text=text, stepped_tokens=k, stepped_after_fork=[j, stepper, bool(case.get('exhaust'))], got=str(got)[:300], want=str(want)[:300], fork_resume=True)
         ctx.label('session:fork-resume')
         if 0 < k < len(seq):
-            ctx.nontrivial([g, case['toks'], k, case['fork_first'], 'session'], sample={'grammar': g, 'text': text, 'stepped_tokens': k, 'fork_first': case['fork_first']})
+            ctx.nontrivial([g, case['toks'], k, case['fork_first'], j, stepper, bool(case.get('exhaust')), 'session'], sample={'grammar': g, 'text': text, 'stepped_tokens': k, 'fork_first': case['fork_first']})
     # (b) resume from the error state == manually feeding the remaining tokens to a copy
     if want[0] == 'err':
         try:
@@ -249,7 +258,8 @@ def session_cases(draw):
     lib = draw(st.one_of(st.integers(0, len(LIB) - 1), st.integers(0, len(LIB) - 1), st.none()))
     g = draw(gramgen.grammars(O_GEN)) if lib is None else None
     return {'lib': lib, 'g': g, 'pp': draw(st.booleans()), 'toks': draw(st.lists(st.integers(0, 30), max_size=9)),
-            'k': draw(st.integers(0, 9)), 'fork_first': draw(st.booleans())}
+            'k': draw(st.integers(0, 9)), 'fork_first': draw(st.booleans()), 'j': draw(st.sampled_from([0, 0, 1, 2, 3])),
+            'stepper': draw(st.sampled_from(['fork', 'fork', 'original', 'both'])), 'exhaust': draw(st.integers(0, 3)) == 0}
 
 
 def phases(tier):
